@@ -83,9 +83,24 @@ pub proof fn lemma_c03_gate_needs_same_tuple(bs: BoundSet, cs: Seq<KCmp>, v: VKe
     requires v.pre.len() > 0, sat(bs, v)
     ensures optin(*bs.lower, v) || optin(*bs.upper, v),
             repr(bs, cs) && wfk(v) ==> exists|i: int| 0 <= i < cs.len() && (#[trigger] cs[i]).k.pre.len() > 0 && same_tuple(cs[i].k, v),
-            (optin(*bs.lower, v) || optin(*bs.upper, v)) && within(bs, v) ==> sat(bs, v),    // once opted in, the bounds alone decide
 {
     if repr(bs, cs) && wfk(v) { lemma_repr_sat(bs, cs, v); }
+}
+/// "when such a comparator exists, satisfaction is decided by the bounds alone" -- at the level of the comparators as written
+pub proof fn lemma_c03_tagged_then_bounds_decide(bs: BoundSet, cs: Seq<KCmp>, v: VKey)
+    requires repr(bs, cs), wfk(v), v.pre.len() > 0, tagged(cs, v)
+    ensures sat(bs, v) == within(bs, v)
+{
+    assert(set_gate(cs, v));
+}
+/// "... inside one alternative whose bounds it meets": a prerelease that satisfies a range does so through one alternative that
+/// contains it and carries a tag on its tuple
+pub proof fn lemma_c03_one_alternative(r: Range, v: VKey)
+    requires rsat(r, v), v.pre.len() > 0
+    ensures exists|i: int| 0 <= i < r.0@.len() && within(#[trigger] r.0@[i], v) && (optin(*r.0@[i].lower, v) || optin(*r.0@[i].upper, v))
+{
+    let i = choose|i: int| 0 <= i < r.0@.len() && i < r.0@.len() && sat(#[trigger] r.0@[i], v);
+    assert(within(r.0@[i], v) && (optin(*r.0@[i].lower, v) || optin(*r.0@[i].upper, v)));
 }
 
 // ---------------------------------------------------------------- C07
@@ -577,3 +592,78 @@ pub proof fn lemma_shape_equiv_repr(bs: BoundSet, c: CSet)
         assert(above(cset_lo(c), v));
     }
 }
+
+/// C02's central sentence: for comparator lists a and b, `a b` is satisfied by a release exactly when it satisfies both, and by a
+/// prerelease exactly when it lies within the bounds of both and satisfies at least one of them; it never widens
+pub proof fn lemma_c02_concat(sa: Seq<Option<BoundSet>>, sb: Seq<Option<BoundSet>>, ra: Seq<BoundSet>, rb: Seq<BoundSet>, r: Seq<BoundSet>, v: VKey)
+    requires conj_post(sa, ra), conj_post(sb, rb), conj_post(sa + sb, r), ra.len() == 1, rb.len() == 1
+    ensures (r.len() == 1 && within(r[0], v)) <==> (within(ra[0], v) && within(rb[0], v)),
+            (r.len() == 1 && sat(r[0], v)) <==> (within(ra[0], v) && within(rb[0], v) && (sat(ra[0], v) || sat(rb[0], v))),
+            v.pre.len() == 0 ==> ((r.len() == 1 && sat(r[0], v)) <==> (sat(ra[0], v) && sat(rb[0], v))),
+{
+    let s = sa + sb; let n = s.len() as int; let na = sa.len() as int; let nb = sb.len() as int;
+    // all_within / some_gate / has_some distribute over concatenation
+    assert(all_within(s, n, v) <==> (all_within(sa, na, v) && all_within(sb, nb, v))) by {
+        if all_within(s, n, v) {
+            assert forall|i: int| 0 <= i < na && i < sa.len() implies ((#[trigger] sa[i]) matches Some(b) ==> within(b, v)) by { assert(s[i] == sa[i]); }
+            assert forall|i: int| 0 <= i < nb && i < sb.len() implies ((#[trigger] sb[i]) matches Some(b) ==> within(b, v)) by { assert(s[i + na] == sb[i]); }
+        }
+        if all_within(sa, na, v) && all_within(sb, nb, v) {
+            assert forall|i: int| 0 <= i < n && i < s.len() implies ((#[trigger] s[i]) matches Some(b) ==> within(b, v)) by { if i < na { assert(s[i] == sa[i]); } else { assert(s[i] == sb[i - na]); } }
+        }
+    }
+    assert(some_gate(s, n, v) <==> (some_gate(sa, na, v) || some_gate(sb, nb, v))) by {
+        if some_gate(s, n, v) {
+            let i = choose|i: int| 0 <= i < n && i < s.len() && ((#[trigger] s[i]) matches Some(b) && gate(b, v));
+            if i < na { assert(s[i] == sa[i]); assert(some_gate(sa, na, v)); } else { assert(s[i] == sb[i - na]); assert(some_gate(sb, nb, v)); }
+        }
+        if some_gate(sa, na, v) { let i = choose|i: int| 0 <= i < na && i < sa.len() && ((#[trigger] sa[i]) matches Some(b) && gate(b, v)); assert(s[i] == sa[i]); }
+        if some_gate(sb, nb, v) { let i = choose|i: int| 0 <= i < nb && i < sb.len() && ((#[trigger] sb[i]) matches Some(b) && gate(b, v)); assert(s[i + na] == sb[i]); }
+    }
+    assert(has_some(s, n)) by {
+        let i = choose|i: int| 0 <= i < na && i < sa.len() && (#[trigger] sa[i]) is Some; assert(s[i] == sa[i]);
+    }
+    assert(within(ra[0], v) <==> all_within(sa, na, v));
+    assert(within(rb[0], v) <==> all_within(sb, nb, v));
+    if r.len() == 1 { assert(within(r[0], v) <==> all_within(s, n, v)); }
+    if r.len() == 0 { assert(!all_within(s, n, v)); }
+}
+/// twin of lemma_c14_order_independent for min_satisfying
+pub proof fn lemma_c14_order_independent_min(r: Range, s1: Seq<Version>, s2: Seq<Version>, m1: Version, m2: Version)
+    requires
+        forall|i: int| 0 <= i < s1.len() ==> exists|j: int| 0 <= j < s2.len() && #[trigger] s1[i] == #[trigger] s2[j],
+        forall|j: int| 0 <= j < s2.len() ==> exists|i: int| 0 <= i < s1.len() && #[trigger] s2[j] == #[trigger] s1[i],
+        rsat(r, key(m1)), exists|k: int| 0 <= k < s1.len() && m1 == #[trigger] s1[k],
+        rsat(r, key(m2)), exists|k: int| 0 <= k < s2.len() && m2 == #[trigger] s2[k],
+        forall|j: int| 0 <= j < s1.len() && rsat(r, key(#[trigger] s1[j])) ==> ver_cmp(s1[j], m1) != Ordering::Less,
+        forall|j: int| 0 <= j < s2.len() && rsat(r, key(#[trigger] s2[j])) ==> ver_cmp(s2[j], m2) != Ordering::Less,
+    ensures ver_cmp(m1, m2) == Ordering::Equal
+{
+    let k1 = choose|k: int| 0 <= k < s1.len() && m1 == #[trigger] s1[k];
+    let k2 = choose|k: int| 0 <= k < s2.len() && m2 == #[trigger] s2[k];
+    let j2 = choose|j: int| 0 <= j < s2.len() && s1[k1] == #[trigger] s2[j];
+    let j1 = choose|i: int| 0 <= i < s1.len() && s2[k2] == #[trigger] s1[i];
+    assert(ver_cmp(s2[j2], m2) != Ordering::Less);
+    assert(ver_cmp(s1[j1], m1) != Ordering::Less);
+    lemma_k_flip(key(m1), key(m2));
+}
+/// C16, stated independently of the order of the branches in diff.js: outside the prerelease-to-release special cases the result names
+/// the most significant differing field, with the `pre` prefix exactly when the higher version is a prerelease
+pub proof fn lemma_c16_most_significant(a: VKey, b: VKey)
+    requires kcmp(a, b) != Ordering::Equal
+    ensures ({
+        let hi = if kcmp(a, b) == Ordering::Greater { a } else { b };
+        let lo = if kcmp(a, b) == Ordering::Greater { b } else { a };
+        let special = lo.pre.len() > 0 && hi.pre.len() == 0;
+        let pre = hi.pre.len() > 0;
+        &&& !special && a.major != b.major ==> diff_spec(a, b) == Some(if pre { VersionDiff::PreMajor } else { VersionDiff::Major })
+        &&& !special && a.major == b.major && a.minor != b.minor ==> diff_spec(a, b) == Some(if pre { VersionDiff::PreMinor } else { VersionDiff::Minor })
+        &&& !special && a.major == b.major && a.minor == b.minor && a.patch != b.patch ==> diff_spec(a, b) == Some(if pre { VersionDiff::PrePatch } else { VersionDiff::Patch })
+        &&& !special && same_tuple(a, b) ==> diff_spec(a, b) == Some(VersionDiff::PreRelease)
+        // the documented special cases (node-semver 7.6.2 functions/diff.js) when going from a prerelease to a release
+        &&& special && lo.patch == 0 && lo.minor == 0 ==> diff_spec(a, b) == Some(VersionDiff::Major)
+        &&& special && !(lo.patch == 0 && lo.minor == 0) && hi.patch != 0 ==> diff_spec(a, b) == Some(VersionDiff::Patch)
+        &&& special && !(lo.patch == 0 && lo.minor == 0) && hi.patch == 0 && hi.minor != 0 ==> diff_spec(a, b) == Some(VersionDiff::Minor)
+        &&& special && !(lo.patch == 0 && lo.minor == 0) && hi.patch == 0 && hi.minor == 0 ==> diff_spec(a, b) == Some(VersionDiff::Major)
+    })
+{ broadcast use group_k_order; }
